@@ -157,13 +157,14 @@ func (m *closeMon) Observe(h *Hand, t *Trans) *vlib.Violation {
 	// whenever the hand says the round is closed - also after an operation that was
 	// not expected but accepted - nobody with chips may be behind the wager to match
 	if t.Err == nil && t.Post.Status.CurrentEvent == "RoundClosed" && aliveCount(t.Post) >= 2 {
+		toMatch := wagerToMatch(t.Post)
 		for _, q := range t.Post.Players {
-			if !q.Fold && q.StackSize > 0 && q.Wager != t.Post.Status.CurrentWager {
+			if !q.Fold && q.StackSize > 0 && (q.Wager != t.Post.Status.CurrentWager || q.Wager < toMatch) {
 				how := "after"
 				if t.Probe {
 					how = "after the unexpected but accepted"
 				}
-				return vlib.V("C05", "closed-early/owes", "%s round is closed %s %s while seat %d has wagered %d of %d and holds %d", t.Post.Status.Round, how, t.Op, q.Idx, q.Wager, t.Post.Status.CurrentWager, q.StackSize)
+				return vlib.V("C05", "closed-early/owes", "%s round is closed %s %s while seat %d has wagered %d of %d and holds %d", t.Post.Status.Round, how, t.Op, q.Idx, q.Wager, maxI64(toMatch, t.Post.Status.CurrentWager), q.StackSize)
 			}
 		}
 	}
@@ -234,8 +235,8 @@ func (m *closeMon) Observe(h *Hand, t *Trans) *vlib.Violation {
 			if q.Fold || q.StackSize == 0 {
 				continue
 			}
-			if q.Wager != post.Status.CurrentWager {
-				return vlib.V("C05", "closed-early/owes", "%s round closed after %s while seat %d has wagered %d of %d and holds %d", m.street, t.Op, q.Idx, q.Wager, post.Status.CurrentWager, q.StackSize)
+			if tm := wagerToMatch(post); q.Wager != post.Status.CurrentWager || q.Wager < tm {
+				return vlib.V("C05", "closed-early/owes", "%s round closed after %s while seat %d has wagered %d of %d and holds %d", m.street, t.Op, q.Idx, q.Wager, maxI64(tm, post.Status.CurrentWager), q.StackSize)
 			}
 			if needTurn && !m.hadTurn[q.Idx] {
 				return vlib.V("C05", "closed-early/no-turn", "%s round closed after %s before seat %d had a turn since the wager last went up", m.street, t.Op, q.Idx)
@@ -250,6 +251,18 @@ func (m *closeMon) Observe(h *Hand, t *Trans) *vlib.Violation {
 		}
 	}
 	return nil
+}
+
+// wagerToMatch: the highest wager of a player still in the hand, whatever the
+// engine's own current_wager field says.
+func wagerToMatch(gs *pf.GameState) int64 {
+	var m int64
+	for _, p := range gs.Players {
+		if !p.Fold && p.Wager > m {
+			m = p.Wager
+		}
+	}
+	return m
 }
 
 // ---------------------------------------------------------------------------
@@ -461,12 +474,13 @@ func checkForced(c *Cfg, gs *pf.GameState) *vlib.Violation {
 			// heads-up the dealer is the small blind and owes it; whether a dealer
 			// blind is due on top of it is not fixed by the statement (with no small
 			// blind configured the dealer blind is what the seat posts)
-			cands[minI64(c.SB, rest)] = true
-			if c.DB > 0 {
-				cands[minI64(c.SB+c.DB, rest)] = true
-				if c.SB == 0 {
-					cands[minI64(c.DB, rest)] = true
+			if c.SB > 0 {
+				cands[minI64(c.SB, rest)] = true
+				if c.DB > 0 {
+					cands[minI64(c.SB+c.DB, rest)] = true
 				}
+			} else {
+				cands[minI64(c.DB, rest)] = true // no small blind configured: the dealer blind (if any) is due
 			}
 			who = "dealer+sb"
 		case issb:
@@ -491,7 +505,9 @@ func checkForced(c *Cfg, gs *pf.GameState) *vlib.Violation {
 	if gs.Status.CurrentWager != maxBlind {
 		return vlib.V("C13", "wager-to-match", "wager to match is %d, largest blind posted is %d", gs.Status.CurrentWager, maxBlind)
 	}
-	if gs.Status.PreviousRaiseSize != c.BB {
+	// "with the big blind as the minimum raise": a game without a big blind
+	// (button-blind and ante-only games) is not covered by that clause
+	if c.BB > 0 && gs.Status.PreviousRaiseSize != c.BB {
 		return vlib.V("C13", "minimum-raise", "minimum raise is %d, big blind is %d", gs.Status.PreviousRaiseSize, c.BB)
 	}
 	return nil
